@@ -742,7 +742,7 @@ func lsJudge(o *common.Options, rep *common.Report, rs []lsResult) error {
 			rep.Samples = append([]any{smp}, rep.Samples...)
 		}
 		for _, f := range r.Fails {
-			rep.Fail(common.OracleFailure{Engine: "lockstep", Key: f.Key, Case: r.Case, Detail: f.Detail})
+			failCapped(rep, common.OracleFailure{Engine: "lockstep", Key: f.Key, Case: r.Case, Detail: f.Detail})
 		}
 		if ans != nil {
 			a := ans[pos : pos+len(r.Lines)]
